@@ -21,7 +21,9 @@
 EXTENDS Integers, Sequences, FiniteSets, TLC, Json
 
 CONSTANTS Targets,      \* target identities
-          RankOf,       \* [Targets -> 1..2]   (a rank-2 target is 2 x 3)
+          RankOf,       \* [Targets -> 0..2]   (a rank-2 target is 2 x 3; rank 0 stands for a DATA FRAME with two
+                        \*                      numeric columns of 3 rows: its index specification is the column number,
+                        \*                      its unit a pair of per-column units, its label the column's name)
           Toks,         \* value tokens 1..n
           MaxDims, MaxDepth, Ops
 
@@ -35,9 +37,13 @@ Log(a) == act' = a /\ hist' = Append(hist, a)
 Refuse(a) == Log(a) /\ UNCHANGED << targets, dims >>
 
 \* legal index specifications for a target: its rank, exactly one -1, no other negative entry
-GoodIdx(t) == IF RankOf[t] = 1 THEN { << -1 >> }
+IsFrame(t) == RankOf[t] = 0
+ColLabel(c) == 10 + c          \* label token standing for the name of column c
+GoodIdx(t) == IF IsFrame(t) THEN { << 0 >>, << 1 >> }
+              ELSE IF RankOf[t] = 1 THEN { << -1 >> }
               ELSE { << -1, j >> : j \in 0..2 } \cup { << i, -1 >> : i \in 0..1 }
-BadIdx(t) == IF RankOf[t] = 1 THEN { << >>, << 0 >>, << -1, -1 >>, << -1, 0 >> }
+BadIdx(t) == IF IsFrame(t) THEN { << 2 >>, << -1 >> }
+             ELSE IF RankOf[t] = 1 THEN { << >>, << 0 >>, << -1, -1 >>, << -1, 0 >> }
              ELSE { << -1 >>, << -1, -1 >>, << 0, 1 >>, << -1, -2 >>, << 0, -1, 0 >> }
 
 NewDim(k) == [k |-> k, own |-> IF k = "sampled" THEN 0 ELSE 1, lab |-> 0, un |-> 0, lnk |-> NoLink, idx |-> << >>]
@@ -66,12 +72,16 @@ SetAttr(i, f, v) ==
     LET a == [name |-> "SetAttr", i |-> i, k |-> dims[i].k, f |-> f, v |-> v, linked |-> dims[i].lnk # NoLink, out |-> "ok"] IN
     /\ CanStep /\ i \in 1..Len(dims) /\ v \in Toks
     /\ (dims[i].k = "set") => f = "lab"
-    /\ IF dims[i].k = "range" /\ dims[i].lnk # NoLink
+    /\ IF dims[i].k = "range" /\ dims[i].lnk # NoLink /\ IsFrame(dims[i].lnk)
+         THEN \* linked to a column of a data frame: the label is the column's name and cannot be set, the unit is the column's
+              IF f = "lab" THEN "faults" \in Ops /\ Refuse([a EXCEPT !.out = "refused:FrameLabel"])
+              ELSE /\ targets' = [targets EXCEPT ![dims[i].lnk].unit[dims[i].idx[1] + 1] = v]
+                   /\ UNCHANGED dims /\ Log(a)
+       ELSE IF dims[i].k = "range" /\ dims[i].lnk # NoLink
          THEN /\ targets' = [targets EXCEPT ![dims[i].lnk] = IF f = "lab" THEN [@ EXCEPT !.label = v] ELSE [@ EXCEPT !.unit = v]]
-              /\ UNCHANGED dims
+              /\ UNCHANGED dims /\ Log(a)
          ELSE /\ dims' = [dims EXCEPT ![i] = IF f = "lab" THEN [@ EXCEPT !.lab = v] ELSE [@ EXCEPT !.un = v]]
-              /\ UNCHANGED targets
-    /\ Log(a)
+              /\ UNCHANGED targets /\ Log(a)
 
 Link(i, t, ix) ==
     LET a == [name |-> "Link", i |-> i, k |-> dims[i].k, t |-> t, idx |-> ix, out |-> "ok"] IN
@@ -90,7 +100,7 @@ Unlink(i) ==
 
 \* the target changes (through its own handle): data, unit, label
 WriteTarget(t, f, v) ==
-    /\ CanStep /\ v # targets[t][f]
+    /\ CanStep /\ (IsFrame(t) => f = "data") /\ v # targets[t][f]
     /\ targets' = [targets EXCEPT ![t][f] = v]
     /\ Log([name |-> "WriteTarget", t |-> t, f |-> f, v |-> v, out |-> "ok"]) /\ UNCHANGED dims
 
@@ -98,7 +108,7 @@ DeleteDims ==
     /\ CanStep /\ dims # << >>
     /\ dims' = << >> /\ Log([name |-> "DeleteDims", out |-> "ok"]) /\ UNCHANGED targets
 
-Init == /\ targets = [t \in Targets |-> [rank |-> RankOf[t], data |-> 1, unit |-> 0, label |-> 0]]
+Init == /\ targets = [t \in Targets |-> [rank |-> RankOf[t], data |-> 1, unit |-> IF IsFrame(t) THEN << 0, 0 >> ELSE 0, label |-> 0]]
         /\ dims = << >> /\ act = [name |-> "Init", out |-> "ok"] /\ hist = << >>
 
 Next ==
@@ -121,8 +131,10 @@ Linked(d) == d.lnk # NoLink
 \* values: << "own", token >> or << "vector", target, data token, idx >>
 ValuesOf(tg, d) == IF Linked(d) THEN [src |-> "vector", t |-> d.lnk, data |-> tg[d.lnk].data, idx |-> d.idx]
                    ELSE [src |-> "own", tok |-> d.own]
-UnitOf(tg, d)  == IF d.k = "range" /\ Linked(d) THEN tg[d.lnk].unit ELSE d.un
-LabelOf(tg, d) == IF d.k = "range" /\ Linked(d) THEN tg[d.lnk].label ELSE d.lab
+UnitOf(tg, d)  == IF d.k = "range" /\ Linked(d)
+                    THEN (IF IsFrame(d.lnk) THEN tg[d.lnk].unit[d.idx[1] + 1] ELSE tg[d.lnk].unit) ELSE d.un
+LabelOf(tg, d) == IF d.k = "range" /\ Linked(d)
+                    THEN (IF IsFrame(d.lnk) THEN ColLabel(d.idx[1]) ELSE tg[d.lnk].label) ELSE d.lab
 Report(tg, ds) == [i \in 1..Len(ds) |->
     [k |-> ds[i].k, linked |-> Linked(ds[i]), values |-> ValuesOf(tg, ds[i]),
      unit |-> UnitOf(tg, ds[i]), label |-> LabelOf(tg, ds[i]), idx |-> ds[i].idx]]
@@ -141,8 +153,8 @@ RefusedUnchanged == [][Refused => View' = View]_vars
 AliasReports == [][act'.name = "WriteTarget" =>
     \A i \in 1..Len(dims) : Linked(dims[i]) /\ dims[i].lnk = act'.t =>
         /\ ValuesOf(targets', dims'[i]).data = targets'[act'.t].data
-        /\ (dims[i].k = "range" => UnitOf(targets', dims'[i]) = targets'[act'.t].unit
-                                   /\ LabelOf(targets', dims'[i]) = targets'[act'.t].label)]_vars
+        /\ ((dims[i].k = "range" /\ ~IsFrame(act'.t)) => UnitOf(targets', dims'[i]) = targets'[act'.t].unit
+                                                         /\ LabelOf(targets', dims'[i]) = targets'[act'.t].label)]_vars
 \* a call on one descriptor leaves the other descriptors alone
 DimFrame == [][act'.name \in { "SetOwn", "Link", "Unlink", "SetAttr" } =>
     /\ Len(dims') = Len(dims) /\ \A j \in 1..Len(dims) : j # act'.i => dims'[j] = dims[j]]_vars
